@@ -115,7 +115,13 @@ func buildTree(r *gen.Rng, base string, depth int, node *refNode) {
 			node.kids = append(node.kids, k)
 			buildTree(r, p, depth-1, k)
 		} else {
+			// a regular file is a regular file whatever its permission bits say
 			os.WriteFile(p, []byte("x"), 0o644)
+			mode := []os.FileMode{0o644, 0o644, 0o600, 0o000, 0o200, 0o111, 0o444, 0o755}[r.Intn(8)]
+			if os.Geteuid() == 0 || mode&0o400 != 0 {
+				// (without root an unreadable file could be listed but not searched by the CLI part of the check)
+				os.Chmod(p, mode)
+			}
 			node.kids = append(node.kids, &refNode{name: nm})
 		}
 	}
@@ -160,7 +166,7 @@ func C20(r *drv.Run) {
 		ntrees, npat = 400, 150
 		plen = 5
 	}
-	r.Rule = fmt.Sprintf("exhaustive: every pattern of length <= %d over {a,b,.,*} with at most 3 stars x a directory holding every name of length <= 4 over {a,b,.} (118 files) and 3 sub-directories with matching names; generated trees of depth <= 3 (names such as a.txt.txt, abxb, .a, and names containing ? [ ] + { } blank backslash, which only '*' may treat specially) with relative and absolute multi-segment patterns, the trees also holding symbolic links to sibling directories and files. The selection is also observed end to end: the built command line tool run inside some of the trees with `find top 1 any` (every file holds one byte), alone, with -profile naming a file OUTSIDE the tree that is called like a file inside it, and with -replace-mode plus a JSON output file; the set of file names in its JSON output must be the same set. Oracle: reference glob (segment-wise, backtracking '*') over the harness's own record of the tree; result sets compared after filepath.Clean; duplicates and listed directories are violations. Non-trivial = pattern containing '*' that selects a non-empty proper subset; distinct by (tree, pattern).", plen)
+	r.Rule = fmt.Sprintf("exhaustive: every pattern of length <= %d over {a,b,.,*} with at most 3 stars x a directory holding every name of length <= 4 over {a,b,.} (118 files) and 3 sub-directories with matching names; generated trees of depth <= 3 (names such as a.txt.txt, abxb, .a, and names containing ? [ ] + { } blank backslash, which only '*' may treat specially) with relative and absolute multi-segment patterns, the trees also holding symbolic links to sibling directories and files and regular files with unusual permission bits (000, 200, 111). The selection is also observed end to end: the built command line tool run inside some of the trees with `find top 1 any` (every file holds one byte), alone, with -profile naming a file OUTSIDE the tree that is called like a file inside it, and with -replace-mode plus a JSON output file; the set of file names in its JSON output must be the same set. Oracle: reference glob (segment-wise, backtracking '*') over the harness's own record of the tree; result sets compared after filepath.Clean; duplicates and listed directories are violations. Non-trivial = pattern containing '*' that selects a non-empty proper subset; distinct by (tree, pattern).", plen)
 	r.Assumptions = []string{
 		"excluded as the property says: directory segments made only of stars, '.' and '..' segments, empty segments",
 		"symbolic links in the trees point to an existing sibling (directory or regular file): a linked directory is a directory (traversed by directory segments, never listed as a file), a linked regular file is a regular file; dangling links (never to be listed) are present in some trees; no special files",
